@@ -305,7 +305,9 @@ class Inliner:
             pty = p.get('type') or ''
             by_ref = '&' in pty or pty.startswith('const ') or pty.rstrip().endswith('const')
             is_ref = '&' in pty
-            opath = _object_path(elems, elems[str(a)]) if is_ref else None
+            # a reference parameter - or a by-value parameter the helper never assigns - bound to a member of an object
+            # of the caller: the parameter is a name for that member
+            opath = _object_path(elems, elems[str(a)]) if (is_ref or not _written_in(g, p['id'])) else None
             unwritten = None
             if an is not None and an.get('k') == 'DeclRefExpr' and an.get('dk') in ('var', 'parm', 'binding') and \
                     not by_ref:
